@@ -49,3 +49,18 @@ pub use zlink_macros::ReplyError;
 
 #[doc(hidden)]
 pub mod test_utils;
+
+/// Verification hooks, compiled only with `--cfg zlink_verif`.
+#[cfg(zlink_verif)]
+#[doc(hidden)]
+pub mod __verif {
+    pub use crate::json_ser::Error as JsonSerError;
+
+    /// Serialize `value` as JSON into `buf` with the built-in serializer; returns the length.
+    pub fn json_to_slice<T>(value: &T, buf: &mut [u8]) -> core::result::Result<usize, JsonSerError>
+    where
+        T: ?Sized + serde::Serialize,
+    {
+        crate::json_ser::to_slice(value, buf)
+    }
+}
